@@ -158,7 +158,11 @@ def iv_job(args):
                 if abs(got - want) > 1e-6 * (1 + abs(want)):
                     out["viol"].append((dict(sig, what="value"), dict(case, got=got, want=want)))
                     continue
-                base = lossref.loss_value(kind, y, detmodels.reference_solution(name, theta, x0f, t0, times, d=d)[:, [states.index(cc) for cc in cols]], None, None)
+                ybase = detmodels.reference_solution(name, theta, x0f, t0, times, d=d)[:, [states.index(cc) for cc in cols]]
+                if kind == "Poisson" and np.min(ybase) <= 0:
+                    out["nontrivial"] += 1          # the constructor's initial state is not even admissible for this loss
+                    continue
+                base = lossref.loss_value(kind, y, ybase, None, None)
                 if abs(base - want) > 1e-3 * (1 + abs(want)):
                     out["nontrivial"] += 1
     return out
